@@ -27,7 +27,8 @@ REACH_PROBES = ["passed_equals_default_with_conflicting_stored", "passed_differs
                 "stored_applied_without_passed", "runpp_failed_with_stored_options", "options_after_save_load"]
 
 VALUES = {
-    "tolerance_mva": [1e-8, 1e-6, 1e-4],
+    # (values close to, but different from, a float default are legal explicit arguments too)
+    "tolerance_mva": [1e-8, 1e-6, 1e-4, 1e-9, 5e-9, 2e-8, 1e-10],
     "trafo_model": ["t", "pi"],
     "trafo_loading": ["current", "power"],
     "enforce_q_lims": [False, True],
@@ -36,7 +37,7 @@ VALUES = {
     "max_iteration": ["auto", 15, 25],
     "calculate_voltage_angles": [True, False],
     "init": ["auto", "flat", "dc"],
-    "switch_rx_ratio": [2, 1.5],
+    "switch_rx_ratio": [2, 1.5, 2.0000001],
     "trafo3w_losses": ["hv", "star"],
     "v_debug": [False, True],
     "consider_line_temperature": [False],
